@@ -264,6 +264,10 @@ def call(ip, name, args, kw):
         from .kpe import SymObj
         return SymObj(None, {"eps": sp.Rational(1, 2 ** 52), "tiny": sp.Rational(1, 2 ** 1022), "max": sp.oo,
                              "resolution": sp.Rational(1, 10 ** 15)}, "finfo")
+    if name == "array_split":
+        a = to_obj_array(args[0])
+        n = as_int(args[1])
+        return [x for x in np.array_split(a, n)]
     if name == "ix_":
         return np.ix_(*[[as_int(x) for x in a] for a in args])
     if name == "isinf":
